@@ -124,7 +124,7 @@ inline rc::Gen<int> rng(int lo, int hi) { return rc::gen::resize(rc::kNominalSiz
 
 inline rc::Gen<std::vector<uint8_t>> sparse_bytes(int len, int density, int maxv) {
     auto elem = rc::gen::map(rc::gen::pair(rng(0, 100), rng(1, maxv + 1)),
-                             [density](std::pair<int, int> p) { return (uint8_t)(p.first < density ? p.second : 0); });
+                             [density](std::pair<int, int> p) { return (uint8_t)(p.first >= 100 - density ? p.second : 0); });   // shrinks towards 0
     return rc::gen::container<std::vector<uint8_t>>((std::size_t)len, elem);
 }
 
